@@ -14,28 +14,17 @@ Import ListNotations.
 Open Scope Z_scope.
 
 (* ---------------------------------------------------------------- big-endian integers *)
-Theorem C07_be_dec_enc : forall k v, be_dec (be_enc k v) = (v mod 256 ^ N.of_nat k)%N.
-Proof. exact be_dec_enc. Qed.
-Print Assumptions C07_be_dec_enc.
-
-Theorem C07_be_enc_dec : forall b, wf_bytes b -> be_enc (length b) (be_dec b) = b.
-Proof. exact be_enc_dec. Qed.
-Print Assumptions C07_be_enc_dec.
-
-Theorem C07_be_enc_injective : forall k v w,
-  (v < 256 ^ N.of_nat k)%N -> (w < 256 ^ N.of_nat k)%N -> be_enc k v = be_enc k w -> v = w.
-Proof. exact be_enc_injective. Qed.
-Print Assumptions C07_be_enc_injective.
-
-Theorem C07_int64_field : forall z, - two63 <= z < two63 ->
-  i64_of_u64 (be_dec (be_enc 8 (u64_of_i64 z))) = z.
-Proof. exact be8_roundtrip. Qed.
-Print Assumptions C07_int64_field.
-
-Theorem C07_int32_field : forall z, - two31 <= z < two31 ->
-  i32_of_u32 (be_dec (be_enc 4 (u32_of_z z))) = z.
-Proof. exact be4_roundtrip. Qed.
-Print Assumptions C07_int32_field.
+Theorem C07_big_endian :
+  (forall k v, be_dec (be_enc k v) = (v mod 256 ^ N.of_nat k)%N) /\
+  (forall b, wf_bytes b -> be_enc (length b) (be_dec b) = b) /\
+  (forall k v w,
+  (v < 256 ^ N.of_nat k)%N -> (w < 256 ^ N.of_nat k)%N -> be_enc k v = be_enc k w -> v = w) /\
+  (forall z, - two63 <= z < two63 ->
+  i64_of_u64 (be_dec (be_enc 8 (u64_of_i64 z))) = z) /\
+  (forall z, - two31 <= z < two31 ->
+  i32_of_u32 (be_dec (be_enc 4 (u32_of_z z))) = z).
+Proof. exact (conj be_dec_enc (conj be_enc_dec (conj be_enc_injective (conj be8_roundtrip be4_roundtrip)))). Qed.
+Print Assumptions C07_big_endian.
 
 (* ---------------------------------------------------------------- the message record *)
 (* decodeMessage (WriteTo m) = m for every well-formed message: any body bytes, any body
@@ -46,31 +35,25 @@ Theorem C07_decode_encode_msg : forall m, wf_msg m ->
 Proof. exact decode_encode_msg. Qed.
 Print Assumptions C07_decode_encode_msg.
 
-Theorem C07_decode_rejects_short : forall b, len b < nsqd_minValidMsgLength -> decode_msg b = DecErr.
-Proof. exact decode_short. Qed.
-Print Assumptions C07_decode_rejects_short.
-
-Theorem C07_decode_accepts_long : forall b, nsqd_minValidMsgLength <= len b -> exists m, decode_msg b = DecOk m.
-Proof. exact decode_long. Qed.
-Print Assumptions C07_decode_accepts_long.
-
-(* no input makes decodeMessage slice out of range *)
-Theorem C07_decode_never_panics : forall b, decode_msg b <> DecPanic.
-Proof. exact decode_never_panics. Qed.
-Print Assumptions C07_decode_never_panics.
+(* inputs shorter than minValidMsgLength are refused, all others decode, and no input makes
+   decodeMessage slice out of range *)
+Theorem C07_decode_guard :
+  (forall b, len b < nsqd_minValidMsgLength -> decode_msg b = DecErr) /\
+  (forall b, nsqd_minValidMsgLength <= len b -> exists m, decode_msg b = DecOk m) /\
+  (forall b, decode_msg b <> DecPanic).
+Proof. exact (conj decode_short (conj decode_long decode_never_panics)). Qed.
+Print Assumptions C07_decode_guard.
 
 (* every record that decodes is the encoding of the decoded message: the record format
    has no slack, nothing of a record is ignored *)
-Theorem C07_encode_decode_msg : forall b m, wf_bytes b -> decode_msg b = DecOk m ->
-  encode_msg m = b /\ wf_msg m /\ m_deferred m = 0.
-Proof. exact encode_decode_msg. Qed.
-Print Assumptions C07_encode_decode_msg.
-
-Theorem C07_encode_msg_injective : forall m1 m2, wf_msg m1 -> wf_msg m2 ->
+Theorem C07_record_exact :
+  (forall b m, wf_bytes b -> decode_msg b = DecOk m ->
+  encode_msg m = b /\ wf_msg m /\ m_deferred m = 0) /\
+  (forall m1 m2, wf_msg m1 -> wf_msg m2 ->
   encode_msg m1 = encode_msg m2 ->
-  m_id m1 = m_id m2 /\ m_body m1 = m_body m2 /\ m_ts m1 = m_ts m2 /\ m_attempts m1 = m_attempts m2.
-Proof. exact encode_msg_injective_fields. Qed.
-Print Assumptions C07_encode_msg_injective.
+  m_id m1 = m_id m2 /\ m_body m1 = m_body m2 /\ m_ts m1 = m_ts m2 /\ m_attempts m1 = m_attempts m2).
+Proof. exact (conj encode_decode_msg encode_msg_injective_fields). Qed.
+Print Assumptions C07_record_exact.
 
 (* ---------------------------------------------------------------- the body path *)
 (* Whatever sequence of memory queues, disk queues (encode, backend, decode; also flush at
@@ -89,9 +72,11 @@ Proof. exact path_attempts. Qed.
 Print Assumptions C07_path_attempts.
 
 (* ---------------------------------------------------------------- frames and the stream *)
-Theorem C07_unframe_frame : forall f, frame_ok f -> rrun rinit (frame_of f) = (rinit, [f]).
-Proof. exact unframe_frame. Qed.
-Print Assumptions C07_unframe_frame.
+Theorem C07_unframe :
+  (forall f, frame_ok f -> rrun rinit (frame_of f) = (rinit, [f])) /\
+  (forall chunks st, rrun_chunks st chunks = rrun st (concat chunks)).
+Proof. exact (conj unframe_frame rrun_chunks_concat). Qed.
+Print Assumptions C07_unframe.
 
 (* any sequence of frames, whatever their data bytes (newlines, NULs, bytes that look like
    a size or a command), written back to back and cut into arbitrary chunks, is read back
@@ -100,10 +85,6 @@ Theorem C07_stream_chunked : forall fs chunks, Forall frame_ok fs ->
   concat chunks = flat_map frame_of fs -> rrun_chunks rinit chunks = (rinit, fs).
 Proof. exact stream_chunked. Qed.
 Print Assumptions C07_stream_chunked.
-
-Theorem C07_chunking_irrelevant : forall chunks st, rrun_chunks st chunks = rrun st (concat chunks).
-Proof. exact rrun_chunks_concat. Qed.
-Print Assumptions C07_chunking_irrelevant.
 
 (* the transport (TLS, snappy, deflate at any level, bufio of any size, any flush policy) is
    ANY pair of functions satisfying the one stated law *)
@@ -131,41 +112,35 @@ Proof. exact end_to_end. Qed.
 Print Assumptions C07_end_to_end.
 
 (* ---------------------------------------------------------------- PUB / DPUB / MPUB *)
-Theorem C07_pub_body : forall max_msg b rest, body_ok max_msg b ->
-  read_pub_body max_msg (encode_pub_body b ++ rest) = RdOk b rest.
-Proof. exact read_pub_body_encode. Qed.
-Print Assumptions C07_pub_body.
+Theorem C07_pub_body_exact :
+  (forall max_msg b rest, body_ok max_msg b ->
+  read_pub_body max_msg (encode_pub_body b ++ rest) = RdOk b rest) /\
+  (forall max_msg s b rest, wf_bytes s -> read_pub_body max_msg s = RdOk b rest ->
+  s = encode_pub_body b ++ rest /\ body_ok max_msg b).
+Proof. exact (conj read_pub_body_encode read_pub_body_inv). Qed.
+Print Assumptions C07_pub_body_exact.
 
-Theorem C07_pub_body_inv : forall max_msg s b rest, wf_bytes s -> read_pub_body max_msg s = RdOk b rest ->
-  s = encode_pub_body b ++ rest /\ body_ok max_msg b.
-Proof. exact read_pub_body_inv. Qed.
-Print Assumptions C07_pub_body_inv.
-
-Theorem C07_read_mpub_encode : forall max_msg max_body bodies rest, batch_ok max_msg max_body bodies ->
-  read_mpub max_msg max_body (encode_mpub bodies ++ rest) = RdOk bodies rest.
-Proof. exact read_mpub_encode. Qed.
-Print Assumptions C07_read_mpub_encode.
+Theorem C07_mpub_accepts :
+  (forall max_msg max_body bodies rest, batch_ok max_msg max_body bodies ->
+  read_mpub max_msg max_body (encode_mpub bodies ++ rest) = RdOk bodies rest) /\
+  (forall max_msg max_body bodies rest,
+  bodies <> [] -> Forall (body_ok max_msg) bodies ->
+  len (encode_mpub bodies) <= max_body -> len (encode_mpub bodies) < two31 ->
+  mpub_tcp max_msg max_body (encode_mpub_tcp bodies ++ rest) = RdOk bodies rest).
+Proof. exact (conj read_mpub_encode mpub_tcp_encode). Qed.
+Print Assumptions C07_mpub_accepts.
 
 (* all or nothing, for every input: the queue is untouched, or extended by exactly the
    bodies the input spells out (all of them, in order, each within the limits) *)
-Theorem C07_mpub_all_or_nothing : forall max_msg max_body queue s, wf_bytes s ->
+Theorem C07_mpub_all_or_nothing_total :
+  (forall max_msg max_body queue s, wf_bytes s ->
   let r := read_mpub max_msg max_body s in
   (exists e, r = RdErr e /\ publish_effect queue r = queue) \/
   (exists bodies rest, r = RdOk bodies rest /\ publish_effect queue r = queue ++ bodies /\
-     s = encode_mpub bodies ++ rest /\ batch_ok max_msg max_body bodies).
-Proof. exact mpub_all_or_nothing. Qed.
-Print Assumptions C07_mpub_all_or_nothing.
-
-Theorem C07_read_mpub_terminates : forall max_msg max_body s, read_mpub max_msg max_body s <> RdErr E_FUEL.
-Proof. exact read_mpub_never_fuel. Qed.
-Print Assumptions C07_read_mpub_terminates.
-
-Theorem C07_mpub_tcp : forall max_msg max_body bodies rest,
-  bodies <> [] -> Forall (body_ok max_msg) bodies ->
-  len (encode_mpub bodies) <= max_body -> len (encode_mpub bodies) < two31 ->
-  mpub_tcp max_msg max_body (encode_mpub_tcp bodies ++ rest) = RdOk bodies rest.
-Proof. exact mpub_tcp_encode. Qed.
-Print Assumptions C07_mpub_tcp.
+     s = encode_mpub bodies ++ rest /\ batch_ok max_msg max_body bodies)) /\
+  (forall max_msg max_body s, read_mpub max_msg max_body s <> RdErr E_FUEL).
+Proof. exact (conj mpub_all_or_nothing read_mpub_never_fuel). Qed.
+Print Assumptions C07_mpub_all_or_nothing_total.
 
 (* ---------------------------------------------------------------- HTTP *)
 Theorem C07_http_pub : forall max_msg cl body, 0 <= max_msg -> cl <= max_msg ->
@@ -187,47 +162,38 @@ Theorem C07_http_mpub_text : forall max_msg max_body cl body, 0 <= max_body -> c
 Proof. exact http_mpub_text_spec. Qed.
 Print Assumptions C07_http_mpub_text.
 
-Theorem C07_http_mpub_text_accepts : forall max_msg max_body cl body, 0 <= max_body -> cl <= max_body ->
+Theorem C07_http_mpub_text_cases :
+  (forall max_msg max_body cl body, 0 <= max_body -> cl <= max_body ->
   len body <= max_body -> blocks_ok max_msg (split_nonempty nl body) ->
-  http_mpub_text max_msg max_body cl body = HOk (split_nonempty nl body).
-Proof. exact http_mpub_text_accepts. Qed.
-Print Assumptions C07_http_mpub_text_accepts.
-
-Theorem C07_http_mpub_text_rejects : forall max_msg max_body cl body, 0 <= max_body ->
+  http_mpub_text max_msg max_body cl body = HOk (split_nonempty nl body)) /\
+  (forall max_msg max_body cl body, 0 <= max_body ->
   max_body < cl \/ max_body < len body \/ has_big max_msg (split_nonempty nl body) ->
   exists e, http_mpub_text max_msg max_body cl body = HErr e /\
-            http_effect [] (http_mpub_text max_msg max_body cl body) = [].
-Proof. exact http_mpub_text_rejects. Qed.
-Print Assumptions C07_http_mpub_text_rejects.
-
-Theorem C07_http_mpub_text_join : forall max_msg max_body rs, 0 <= max_body ->
+            http_effect [] (http_mpub_text max_msg max_body cl body) = []) /\
+  (forall max_msg max_body rs, 0 <= max_body ->
   Forall (good_record nl) rs -> blocks_ok max_msg rs -> len (join nl rs) + 1 <= max_body ->
   http_mpub_text max_msg max_body (len (join nl rs)) (join nl rs) = HOk rs /\
-  http_mpub_text max_msg max_body (len (join nl rs ++ [nl])) (join nl rs ++ [nl]) = HOk rs.
-Proof. exact http_mpub_text_join. Qed.
-Print Assumptions C07_http_mpub_text_join.
+  http_mpub_text max_msg max_body (len (join nl rs ++ [nl])) (join nl rs ++ [nl]) = HOk rs).
+Proof. exact (conj http_mpub_text_accepts (conj http_mpub_text_rejects http_mpub_text_join)). Qed.
+Print Assumptions C07_http_mpub_text_cases.
 
-Theorem C07_http_mpub_binary : forall max_msg max_body cl bodies, cl <= max_body ->
+Theorem C07_http_mpub_binary_exact :
+  (forall max_msg max_body cl bodies, cl <= max_body ->
   batch_ok max_msg max_body bodies ->
-  http_mpub_binary max_msg max_body cl (encode_mpub bodies) = HOk bodies.
-Proof. exact http_mpub_binary_accepts. Qed.
-Print Assumptions C07_http_mpub_binary.
-
-Theorem C07_http_mpub_binary_inv : forall max_msg max_body cl body bodies, wf_bytes body ->
+  http_mpub_binary max_msg max_body cl (encode_mpub bodies) = HOk bodies) /\
+  (forall max_msg max_body cl body bodies, wf_bytes body ->
   http_mpub_binary max_msg max_body cl body = HOk bodies ->
-  exists rest, body = encode_mpub bodies ++ rest /\ batch_ok max_msg max_body bodies.
-Proof. exact http_mpub_binary_inv. Qed.
-Print Assumptions C07_http_mpub_binary_inv.
+  exists rest, body = encode_mpub bodies ++ rest /\ batch_ok max_msg max_body bodies).
+Proof. exact (conj http_mpub_binary_accepts http_mpub_binary_inv). Qed.
+Print Assumptions C07_http_mpub_binary_exact.
 
 (* ---------------------------------------------------------------- ids *)
-Theorem C07_id_hex16 : forall g, id_is_hex16 (id_of_guid g) = true.
-Proof. exact id_of_guid_hex16. Qed.
-Print Assumptions C07_id_hex16.
-
-Theorem C07_id_injective : forall a b, - two63 <= a < two63 -> - two63 <= b < two63 ->
-  id_of_guid a = id_of_guid b -> a = b.
-Proof. exact id_of_guid_injective. Qed.
-Print Assumptions C07_id_injective.
+Theorem C07_ids :
+  (forall g, id_is_hex16 (id_of_guid g) = true) /\
+  (forall a b, - two63 <= a < two63 -> - two63 <= b < two63 ->
+  id_of_guid a = id_of_guid b -> a = b).
+Proof. exact (conj id_of_guid_hex16 id_of_guid_injective). Qed.
+Print Assumptions C07_ids.
 
 (* ---------------------------------------------------------------- non-vacuity *)
 Definition ex_id : bytes := id_of_guid 1234567890123456789.
